@@ -395,16 +395,36 @@ def r4(ctx):
     st0 = State()
     st0.env["computeRot"] = Rat(Poly.const(0))
     try:
-        full = SymExec(cf, TH, call_model=lambda name, args, n, st_, ex_: (_sym("lam") if name in ("DirectSolve", "NewtonSolve") else None)).run(body, st0)
+        exf = SymExec(cf, TH, call_model=lambda name, args, n, st_, ex_: (_sym("lam") if name in ("DirectSolve", "NewtonSolve") else None))
+        full = exf.run(body, st0)
     except Unsupported as e:
         raise AnalysisError("msdFromMandG: %s" % e)
-    pos = [x for x in full if x.ret is not None and x.ret == want_msd]
-    zero = [x for x in full if x.ret is not None and x.ret.const_value() == 0]
-    okp = len(full) == 2 and len(pos) == 1 and len(zero) == 1
-    if okp:
-        cv = [c for c, p_ in pos[0].cvals if p_]
-        okp = len(cv) == 1 and re.sub(r"\s", "", cv[0]) == re.sub(r"\s", "", "(%r>0)" % (want_msd,))
-    dec(okp, "returns (G_a + G_b - 2 lambda)/N when that is positive, else 0", "returned values are %s" % [(repr(x.ret)[:60], [c for c, _ in x.cvals]) for x in full])
+    # every way the function can return: the path conditions plus, for a value written as `c ? a : b`, both values of c - all decoded by value
+    from ..symval import elementary_facts, has_fact
+    cases = []
+    for x in full:
+        if x.ret is None:
+            continue
+        facts0 = []
+        for (cv_, pol), (txt, _p) in zip(x.cexprs, x.cvals):
+            facts0 += elementary_facts(exf, cv_ if cv_ is not None else txt, pol)
+        flags = [v for v in x.ret.vars() if v in exf.atoms]
+        if len(flags) > 3:
+            cases.append((facts0, x.ret))
+            continue
+        import itertools as _it
+        for bits in _it.product((1, 0), repeat=len(flags)):
+            sub = {f: Poly.const(b_) for f, b_ in zip(flags, bits)}
+            val = Rat(x.ret.n.subs(sub), x.ret.d.subs(sub)) if flags else x.ret
+            fs = list(facts0)
+            for f, b_ in zip(flags, bits):
+                fs += elementary_facts(exf, f, bool(b_))
+            cases.append((fs, val))
+    zero_ = Rat(Poly.const(0))
+    pos = [c for c in cases if has_fact(c[0], "<", zero_ - want_msd)]
+    rest = [c for c in cases if c not in pos]
+    okp = bool(pos) and bool(rest) and all(c[1] == want_msd for c in pos) and all(c[1].n.is_zero() and has_fact(c[0], "<=", want_msd) for c in rest)
+    dec(okp, "returns (G_a + G_b - 2 lambda)/N when that is positive, else 0", "returned values are %s" % [(repr(c[1])[:60], [(r_, repr(d_)[:40]) for r_, d_ in c[0] if r_ != "or"]) for c in cases])
     # DirectSolve: largest of the four roots of  lambda^4 + C2 lambda^2 + C1 lambda + C0
     ds = cf.function(TH, "DirectSolve")
     ctx.analysed_functions.add(TH + ":DirectSolve")
